@@ -85,6 +85,16 @@ func (c *FuncCtx) strLit(s string) string {
 	if n, ok := c.strLits[s]; ok {
 		return n
 	}
+	if len(s) == 1 {
+		// one-byte literals are the same terms as bytestr(b) in specifications
+		b := fmt.Sprintf("%d", s[0])
+		if c.mode == ModeBV {
+			b = fmt.Sprintf("(_ bv%d 8)", s[0])
+		}
+		t := c.strOfByte(b)
+		c.strLits[s] = t
+		return t
+	}
 	hint := "lit_"
 	for i := 0; i < len(s) && i < 16; i++ {
 		ch := s[i]
@@ -445,6 +455,7 @@ func (c *FuncCtx) sconcat(a, b string) string {
 		if c.mode == ModeInt {
 			c.axiom("(forall ((a Str) (b Str)) (! (= (slen (sconcat a b)) (+ (slen a) (slen b))) :pattern ((sconcat a b))))", "sconcat")
 			c.axiom("(forall ((a Str) (b Str) (i Int)) (! (= (sat (sconcat a b) i) (ite (< i (slen a)) (sat a i) (sat b (- i (slen a))))) :pattern ((sat (sconcat a b) i))))", "sconcat")
+			c.axiom("(forall ((a Str) (b Str) (c Str)) (! (= (sconcat (sconcat a b) c) (sconcat a (sconcat b c))) :pattern ((sconcat (sconcat a b) c))))", "sconcat")
 			c.axiom("(forall ((a Str)) (! (= (sconcat a str_empty) a) :pattern ((sconcat a str_empty))))", "sconcat")
 			c.axiom("(forall ((a Str)) (! (= (sconcat str_empty a) a) :pattern ((sconcat str_empty a))))", "sconcat")
 		} else {
